@@ -108,10 +108,12 @@ public:
     int valueCounter = 100;
     int step = 0;
     bool reentered = false, ctxDiedBeforeFinish = false;
+    bool abandon = false;
 
     Runner(const Plan &p, Trace &t, RunResult &r) : plan(p), tr(t), res(r)
     {
         nPairs = (int)std::max<qint64>(1, std::min<qint64>(3, plan.knob(QStringLiteral("pairs"), 2)));
+        abandon = plan.knob(QStringLiteral("abandon")) == 1;
         promises.resize(nPairs);
         tasks.resize(nPairs);
         keeper.resize(nPairs);
@@ -319,9 +321,24 @@ public:
             ++step;
         }
         // end: finish what is unfinished (contexts may be dead by now), drop every handle, destroy contexts
-        for (int i = 0; i < nPairs; ++i) {
-            doFinish(i);
-            checkStep();
+        // ... unless the run abandons its promises: whoever holds the last handle of an unfinished promise/task pair drops it
+        // (an operation that was given up); the continuation never runs and must be released with the task
+        bool abandonedWithSelfCapture = false;
+        if (abandon) {
+            for (int i = 0; i < nPairs; ++i) {
+                if (!model[i].finished) {
+                    res.faults[QStringLiteral("promise_dropped_unfinished")]++;
+                    const int pc = model[i].pendingCont;
+                    if (pc >= 0 && conts[pc]->capturesOwnTask) {
+                        abandonedWithSelfCapture = true;   // a cycle the caller built: nothing the library could release
+                    }
+                }
+            }
+        } else {
+            for (int i = 0; i < nPairs; ++i) {
+                doFinish(i);
+                checkStep();
+            }
         }
         for (int i = 0; i < nPairs; ++i) {
             promises[i].clear();
@@ -345,7 +362,9 @@ public:
             }
         }
         // release: nothing may be alive any more
-        if (g_captureLive != 0) {
+        if (g_captureLive != 0 && abandonedWithSelfCapture) {
+            res.probes[QStringLiteral("abandoned_pair_with_self_capturing_continuation_not_judged")]++;
+        } else if (g_captureLive != 0) {
             bool selfCapture = false;
             for (const auto &c : conts) {
                 selfCapture = selfCapture || c->capturesOwnTask;
@@ -404,6 +423,7 @@ public:
         Prng r(derive(seed, "c13"));
         p.knobs[QStringLiteral("type")] = r.uniform(3);
         p.knobs[QStringLiteral("pairs")] = r.range(1, 3);
+        p.knobs[QStringLiteral("abandon")] = (qint64)(mix64(seed, 0xaba0) % 100 < 20);   // unfinished promises are dropped at the end instead of finished
         const int n = (int)r.range(2, tier == QLatin1String("thorough") ? 22 : 14);
         for (int i = 0; i < n; ++i) {
             const qint64 pair = r.uniform(3);
